@@ -25,13 +25,21 @@ pub fn parse_xml_timestamp(t: &str) -> Result<chrono::NaiveDateTime, XmlParseErr
         // Prior to KDBX4 file format, timestamps were stored as ISO 8601 strings
         Ok(ndt) => Ok(ndt),
         // If we don't have a valid ISO 8601 string, assume we have found a Base64 encoded int.
-        _ => {
+        Err(iso_error) => {
             let v = base64_engine::STANDARD.decode(t)?;
+
+            // neither an ISO 8601 string nor eight Base64 encoded bytes
+            if v.len() < 8 {
+                return Err(iso_error.into());
+            }
 
             // Cast the decoded base64 Vec into the array expected by i64::from_le_bytes
             let mut a: [u8; 8] = [0, 0, 0, 0, 0, 0, 0, 0];
             a.copy_from_slice(&v[0..8]);
-            let ndt = get_epoch_baseline() + chrono::Duration::seconds(i64::from_le_bytes(a));
+            // a second count that chrono cannot represent is not a timestamp either
+            let ndt = chrono::Duration::try_seconds(i64::from_le_bytes(a))
+                .and_then(|d| get_epoch_baseline().checked_add_signed(d))
+                .ok_or(iso_error)?;
             Ok(ndt)
         }
     }
